@@ -217,7 +217,7 @@ func (p *LaxPolygon) ChainPosition(e int) ChainPosition {
 		nextLoop++
 	}
 
-	return ChainPosition{p.cumulativeVertices[nextLoop] - p.cumulativeVertices[1], e - p.cumulativeVertices[nextLoop-1]}
+	return ChainPosition{nextLoop - 1, e - p.cumulativeVertices[nextLoop-1]}
 }
 
 // TODO(roberts): Remaining to port from C++:
